@@ -913,7 +913,7 @@ Proof.
     rewrite !memn_app, !mem_app. unfold memn. cbn [mem]. btauto. }
   repeat split; try assumption.
   - intros y. rewrite Ef. apply I2.
-  - intros y. unfold named. cbn [posargs pokargs kwoargs]. rewrite !memn_app. intros H. apply I9.
+  - intros y H. apply I9. unfold named in H. cbn [posargs pokargs kwoargs] in H. rewrite !memn_app in H.
     unfold outb. rewrite <- H. btauto.
 Qed.
 End MergerInv.
@@ -938,4 +938,481 @@ Theorem merger_truthful l r s x f :
   In f (src_get (ssrc l) x) \/ In f (src_get (ssrc r) x).
 Proof.
   intros E. destruct (merger_Inv l r s E) as (_ & _ & _ & P4 & _). apply P4.
+Qed.
+
+(* ================================================================== *)
+(* Part 3 — merge                                                      *)
+
+Lemma apply_params_fields base acc r :
+  apply_params base acc = Ok r -> params r = flatten acc /\ srcs r = ssrc acc.
+Proof.
+  unfold apply_params. destruct (validate (flatten acc)); intros E; inversion E; subst. cbn. auto.
+Qed.
+
+Lemma apply_params_src_ok base acc r : sorted_ok acc -> apply_params base acc = Ok r -> src_ok r.
+Proof.
+  intros H E. destruct (apply_params_fields _ _ _ E) as [E1 E2]. unfold src_ok. rewrite E1, E2. exact H.
+Qed.
+
+Lemma merge_steps_sorted_ok ss : forall acc r,
+  sorted_ok acc -> Forall src_nonempty ss -> merge_steps acc ss = Ok r -> sorted_ok r.
+Proof.
+  induction ss as [|s ss IH]; intros acc r Hacc Hss; cbn [merge_steps].
+  - intros E; inversion E; subst; exact Hacc.
+  - inversion Hss as [|s' ss' Hs Hss']; subst. intros E.
+    apply bind_ok in E. destruct E as [acc' [E1 E2]]. apply to_incompatible_ok in E1.
+    eapply IH; [|exact Hss'|exact E2].
+    eapply merger_sorted_ok; [apply sorted_ok_nonempty; exact Hacc | | exact E1].
+    intros _. apply sort_params_nonempty. exact Hs.
+Qed.
+
+(* C08 keys / non-empty for the n-ary merge, n >= 2: the inputs need not even
+   be valid signatures, and only the non-emptiness of their lists is used *)
+Theorem merge_src_ok_weak s0 s1 ss r :
+  Forall src_nonempty (s0 :: s1 :: ss) -> merge (s0 :: s1 :: ss) = Ok r -> src_ok r.
+Proof.
+  intros Hss. cbn [merge merge_steps]. intros E.
+  inversion Hss as [|? ? H0 Hss1]; subst. inversion Hss1 as [|? ? H1 Hss2]; subst.
+  apply bind_ok in E. destruct E as [acc [E1 E2]].
+  apply bind_ok in E1. destruct E1 as [acc1 [E0 E1]]. apply to_incompatible_ok in E0.
+  eapply apply_params_src_ok; [|exact E2].
+  eapply merge_steps_sorted_ok; [|exact Hss2|exact E1].
+  eapply merger_sorted_ok; [apply sort_params_nonempty; exact H0 | | exact E0].
+  intros _. apply sort_params_nonempty. exact H1.
+Qed.
+
+Lemma Forall_src_ok_nonempty ss : Forall src_ok ss -> Forall src_nonempty ss.
+Proof. intros H. eapply Forall_impl; [|exact H]. apply src_ok_nonempty. Qed.
+
+Theorem merge_src_ok s0 s1 ss r :
+  merge (s0 :: s1 :: ss) = Ok r -> Forall src_ok (s0 :: s1 :: ss) -> src_ok r.
+Proof. intros E H. eapply merge_src_ok_weak; [apply Forall_src_ok_nonempty; exact H | exact E]. Qed.
+
+(* the one-input merge returns its (valid) input *)
+Theorem merge_src_ok_single s r :
+  valid_sig (params s) = true -> merge [s] = Ok r -> src_ok s -> src_ok r.
+Proof. intros Hv E H. rewrite (merge_single s Hv) in E. inversion E; subst. exact H. Qed.
+
+(* any number of valid inputs *)
+Theorem merge_src_ok_valid ss r :
+  Forall (fun s => valid_sig (params s) = true) ss ->
+  merge ss = Ok r -> Forall src_ok ss -> src_ok r.
+Proof.
+  destruct ss as [|s0 [|s1 ss]]; intros Hv E H.
+  - discriminate E.
+  - inversion Hv; subst. inversion H; subst. eapply merge_src_ok_single; eauto.
+  - eapply merge_src_ok; eauto.
+Qed.
+
+(* truthful: every callable listed for x in the result is listed for x in an input *)
+Lemma merge_steps_truthful x f ss : forall acc r,
+  merge_steps acc ss = Ok r -> In f (src_get (ssrc r) x) ->
+  In f (src_get (ssrc acc) x) \/ exists s, In s ss /\ In f (src_get (srcs s) x).
+Proof.
+  induction ss as [|s ss IH]; intros acc r; cbn [merge_steps].
+  - intros E; inversion E; subst. auto.
+  - intros E Hf. apply bind_ok in E. destruct E as [acc' [E1 E2]]. apply to_incompatible_ok in E1.
+    destruct (IH _ _ E2 Hf) as [H|[s' [Hs' H]]].
+    + destruct (merger_truthful _ _ _ _ _ E1 H) as [A|A]; [left; exact A|].
+      right. exists s. split; [left; reflexivity|]. rewrite sort_params_ssrc in A. exact A.
+    + right. exists s'. split; [right; exact Hs' | exact H].
+Qed.
+
+Theorem merge_truthful ss r x f :
+  merge ss = Ok r -> In f (src_get (srcs r) x) -> exists s, In s ss /\ In f (src_get (srcs s) x).
+Proof.
+  destruct ss as [|s0 ss]; cbn [merge]; [discriminate|]. intros E Hf.
+  apply bind_ok in E. destruct E as [acc [E1 E2]].
+  destruct (apply_params_fields _ _ _ E2) as [_ Es]. rewrite Es in Hf.
+  destruct (merge_steps_truthful _ _ _ _ _ E1 Hf) as [H|[s [Hs H]]].
+  - exists s0. split; [left; reflexivity|]. rewrite sort_params_ssrc in H. exact H.
+  - exists s. split; [right; exact Hs | exact H].
+Qed.
+
+(* default sources (signatures.signature(f)): every parameter -> [f] *)
+Lemma default_sources_ok f ps rt ur d :
+  NoDup (names_of ps) -> src_ok (mkSig ps rt ur (map (fun p => (pname p, [f])) ps) d).
+Proof.
+  intros Hn. unfold src_ok, wf_src. cbn [srcs params].
+  assert (Ek : keys (map (fun p => (pname p, [f])) ps) = names_of ps).
+  { unfold keys, names_of. rewrite map_map. reflexivity. }
+  split; [rewrite Ek; exact Hn|]. split.
+  - intros x. rewrite src_mem_keys, Ek. reflexivity.
+  - intros x. clear Hn Ek. induction ps as [|p ps IH]; cbn [names_of map mem src_get]; [discriminate|].
+    destruct (N.eqb x (pname p)); [discriminate|]. exact IH.
+Qed.
+
+Lemma valid_default_sources_ok f ps rt ur d :
+  valid_sig ps = true -> src_ok (mkSig ps rt ur (map (fun p => (pname p, [f])) ps) d).
+Proof.
+  intros H. apply default_sources_ok. apply validate_nodup.
+  unfold valid_sig in H. apply andb_true_iff in H. destruct H as [H _]. apply andb_true_iff in H. tauto.
+Qed.
+
+(* ================================================================== *)
+(* Part 4 — embed                                                      *)
+
+(* the forwarded star names of the outer signature are not names of anything
+   the outer signature keeps *)
+Definition fwd_apart (uva uvk : bool) (outer : sorted) : Prop :=
+  (uva = true -> forall p, varargs outer = Some p ->
+     memn (pname p) (named outer) = false /\
+     (uvk = false -> memn (pname p) (opt_list (varkwargs outer)) = false)) /\
+  (uvk = true -> forall p, varkwargs outer = Some p ->
+     memn (pname p) (named outer) = false /\
+     (uva = false -> memn (pname p) (opt_list (varargs outer)) = false)).
+
+Lemma nodup_names_fwd_apart uva uvk outer :
+  NoDup (names_of (flatten outer)) -> fwd_apart uva uvk outer.
+Proof.
+  intros Hn. unfold flatten, names_of in Hn. rewrite !map_app in Hn.
+  fold (names_of (posargs outer)) (names_of (pokargs outer)) (names_of (opt_list (varargs outer)))
+       (names_of (kwoargs outer)) (names_of (opt_list (varkwargs outer))) in Hn.
+  set (A := names_of (posargs outer)) in *. set (B := names_of (pokargs outer)) in *.
+  set (K := names_of (kwoargs outer)) in *.
+  assert (Hnamed : forall y, memn y (named outer) = mem y A || mem y B || mem y K).
+  { intros y. unfold named. rewrite !memn_app. unfold memn. fold A B K. btauto. }
+  split.
+  - intros _ p Hp. rewrite Hp in Hn. cbn [opt_list names_of map] in Hn.
+    assert (H1 : ~ In (pname p) A).
+    { intros H. apply (nodup_app_disjoint _ _ (pname p) Hn H).
+      apply in_or_app; right. left. reflexivity. }
+    apply nodup_app_r in Hn.
+    assert (H2 : ~ In (pname p) B).
+    { intros H. apply (nodup_app_disjoint _ _ (pname p) Hn H). left. reflexivity. }
+    apply nodup_app_r in Hn. cbn [app] in Hn. inversion Hn as [|? ? H3 _]; subst.
+    split.
+    + rewrite Hnamed. apply mem_false_In in H1. apply mem_false_In in H2. rewrite H1, H2. cbn [orb].
+      apply mem_false_In. intros H. apply H3. apply in_or_app; left. exact H.
+    + intros _. unfold memn. apply mem_false_In. intros H. apply H3. apply in_or_app; right. exact H.
+  - intros _ p Hp. rewrite Hp in Hn. cbn [opt_list names_of map] in Hn.
+    assert (G : forall X Y : list name, NoDup (X ++ Y ++ [pname p]) -> ~ In (pname p) X).
+    { intros X Y H Hin. apply (nodup_app_disjoint _ _ (pname p) H Hin).
+      apply in_or_app; right. left. reflexivity. }
+    assert (H1 : ~ In (pname p) A).
+    { rewrite !app_assoc in Hn. rewrite <- !app_assoc in Hn.
+      intros H. apply (nodup_app_disjoint _ _ (pname p) Hn H).
+      repeat (apply in_or_app; right). left. reflexivity. }
+    apply nodup_app_r in Hn.
+    assert (H2 : ~ In (pname p) B).
+    { intros H. apply (nodup_app_disjoint _ _ (pname p) Hn H).
+      repeat (apply in_or_app; right). left. reflexivity. }
+    apply nodup_app_r in Hn.
+    assert (H3 : ~ In (pname p) (names_of (opt_list (varargs outer)))).
+    { intros H. apply (nodup_app_disjoint _ _ (pname p) Hn H).
+      repeat (apply in_or_app; right). left. reflexivity. }
+    apply nodup_app_r in Hn.
+    assert (H4 : ~ In (pname p) K).
+    { intros H. apply (nodup_app_disjoint _ _ (pname p) Hn H). left. reflexivity. }
+    split.
+    + rewrite Hnamed. apply mem_false_In in H1. apply mem_false_In in H2. apply mem_false_In in H4.
+      rewrite H1, H2, H4. reflexivity.
+    + intros _. unfold memn. apply mem_false_In. exact H3.
+Qed.
+
+Lemma orb_cong3 (a b c d w : bool) : a || (b || c) = d -> a || ((b || c) || w) = d || w.
+Proof. intros <-. btauto. Qed.
+
+Definition popped (b : bool) (o : option param) (y : name) : bool :=
+  match o with Some p => b && N.eqb y (pname p) | None => false end.
+
+Definition pop_star (b : bool) (o : option param) (m : srcmap) : srcmap :=
+  match o with Some p => if b then src_pop m (pname p) else m | None => m end.
+
+Lemma pop_star_mem b o m y : src_mem (pop_star b o m) y = src_mem m y && negb (popped b o y).
+Proof.
+  unfold pop_star, popped. destruct o as [p|]; [|rewrite andb_true_r; reflexivity].
+  destruct b; [apply src_mem_pop | rewrite andb_true_r; reflexivity].
+Qed.
+
+Lemma pop_star_get b o m y : src_get (pop_star b o m) y = if popped b o y then [] else src_get m y.
+Proof.
+  unfold pop_star, popped. destruct o as [p|]; [|reflexivity].
+  destruct b; [apply src_get_pop | reflexivity].
+Qed.
+
+Lemma pop_star_nodup b o m : NoDup (keys m) -> NoDup (keys (pop_star b o m)).
+Proof. unfold pop_star. destruct o as [p|]; [|auto]. destruct b; [apply nodup_pop | auto]. Qed.
+
+Lemma popped_opt b o y : popped b o y = b && memn y (opt_list o).
+Proof. unfold popped. rewrite memn_opt. destruct o; [reflexivity | rewrite andb_false_r; reflexivity]. Qed.
+
+Lemma embed_step_sorted_ok outer inner uva uvk depth s :
+  sorted_ok outer -> fwd_apart uva uvk outer -> nonempty_on inner ->
+  embed_step outer inner uva uvk depth = Ok s -> sorted_ok s.
+Proof.
+  intros Ho Hap Hi. unfold embed_step. intros E.
+  apply bind_ok in E. destruct E as [i [Ei E]].
+  set (stars := mkSorted [] [] (opt_if uva (varargs outer)) [] (opt_if uvk (varkwargs outer)) [] []) in *.
+  assert (Hsi : sorted_ok i).
+  { eapply merger_sorted_ok; [exact Hi | | exact Ei]. intros H. exfalso. apply H. reflexivity. }
+  destruct (merger_Inv _ _ _ Ei) as (_ & _ & _ & _ & _ & _ & _ & Nva & Nvk).
+  cbn [stars varargs varkwargs] in Nva, Nvk.
+  apply bind_ok in E. destruct E as [n1 [_ E]].
+  apply bind_ok in E. destruct E as [n2 [_ E]].
+  apply bind_ok in E. destruct E as [[[e_pos e_pok] n3] [Ee E]].
+  assert (He : forall y, memn y (e_pos ++ e_pok ++ pokargs i) =
+                         memn y (posargs outer) || memn y (pokargs outer)
+                         || memn y (posargs i) || memn y (pokargs i)).
+  { intros y. rewrite !memn_app. destruct (posargs i) as [|ip0 ips] eqn:Epi.
+    - rewrite memn_nil. destruct (pokargs i) as [|ik0 iks] eqn:Epk.
+      + inversion Ee; subst. btauto.
+      + destruct (has_def ik0); inversion Ee; subst; rewrite ?memn_clear; btauto.
+    - apply bind_ok in Ee. destruct Ee as [n3' [_ Ee]]. inversion Ee; subst.
+      destruct (has_def ip0);
+        repeat first [rewrite memn_clear | rewrite memn_app | rewrite memn_map_kind | rewrite memn_nil]; btauto. }
+  apply bind_ok in E. destruct E as [n4 [_ E]].
+  apply bind_ok in E. destruct E as [n5 [_ E]].
+  apply bind_ok in E. destruct E as [n6 [_ E]].
+  inversion E; subst. clear E.
+  fold (pop_star uva (varargs outer) (ssrc outer)).
+  fold (pop_star uvk (varkwargs outer) (pop_star uva (varargs outer) (ssrc outer))).
+  set (o2 := pop_star uvk (varkwargs outer) (pop_star uva (varargs outer) (ssrc outer))).
+  fold (overlay o2 (ssrc i)).
+  destruct Ho as (O1 & O2 & O3). destruct Hsi as (J1 & J2 & J3).
+  assert (Nva' : uva = false -> varargs i = None).
+  { intros ->. apply Nva. right. reflexivity. }
+  assert (Nvk' : uvk = false -> varkwargs i = None).
+  { intros ->. apply Nvk. right. reflexivity. }
+  (* key set of the popped outer map *)
+  assert (K2 : forall y, src_mem o2 y =
+                 memn y (named outer)
+                 || (negb uva && memn y (opt_list (varargs outer)))
+                 || (negb uvk && memn y (opt_list (varkwargs outer)))).
+  { intros y. unfold o2. rewrite !pop_star_mem, O2. fold (memn y (flatten outer)).
+    rewrite memn_flatten, !popped_opt.
+    destruct Hap as [Ha Hk].
+    destruct (memn y (opt_list (varargs outer))) eqn:Eva.
+    - destruct (varargs outer) as [p|] eqn:Ep; [|discriminate Eva].
+      rewrite memn_opt in Eva. apply N.eqb_eq in Eva. subst y.
+      destruct uva.
+      + destruct (Ha eq_refl p eq_refl) as [A1 A2]. rewrite A1.
+        destruct uvk; cbn; [rewrite ?andb_false_r; reflexivity|]. rewrite (A2 eq_refl). reflexivity.
+      + cbn. destruct (memn (pname p) (named outer)); cbn; [|].
+        * destruct uvk; cbn; [|reflexivity].
+          destruct (memn (pname p) (opt_list (varkwargs outer))) eqn:Evk; cbn; [|reflexivity].
+          destruct (varkwargs outer) as [q|] eqn:Eq; [|discriminate Evk].
+          rewrite memn_opt in Evk. apply N.eqb_eq in Evk.
+          destruct (Hk eq_refl q eq_refl) as [B1 B2]. pose proof (B2 eq_refl) as B3.
+          rewrite memn_opt, <- Evk, N.eqb_refl in B3. discriminate B3.
+        * destruct uvk; cbn; [|reflexivity].
+          destruct (memn (pname p) (opt_list (varkwargs outer))) eqn:Evk; cbn; [|reflexivity].
+          destruct (varkwargs outer) as [q|] eqn:Eq; [|discriminate Evk].
+          rewrite memn_opt in Evk. apply N.eqb_eq in Evk.
+          destruct (Hk eq_refl q eq_refl) as [B1 B2]. pose proof (B2 eq_refl) as B3.
+          rewrite memn_opt, <- Evk, N.eqb_refl in B3. discriminate B3.
+    - rewrite !andb_false_r, !orb_false_r. cbn [negb andb].
+      destruct (memn y (opt_list (varkwargs outer))) eqn:Evk.
+      + destruct (varkwargs outer) as [q|] eqn:Eq; [|discriminate Evk].
+        rewrite memn_opt in Evk. apply N.eqb_eq in Evk. subst y.
+        destruct uvk; cbn; [|rewrite ?orb_true_r; reflexivity].
+        destruct (Hk eq_refl q eq_refl) as [B1 _]. rewrite B1. reflexivity.
+      + destruct (memn y (named outer)), uva, uvk; reflexivity. }
+  assert (N2 : NoDup (keys o2)) by (unfold o2; apply pop_star_nodup; apply pop_star_nodup; exact O1).
+  assert (G2 : forall y, src_mem o2 y = true -> src_get o2 y <> []).
+  { intros y Hy. unfold o2 in *. rewrite !pop_star_mem in Hy. rewrite !pop_star_get.
+    apply andb_true_iff in Hy. destruct Hy as [Hy H2]. apply andb_true_iff in Hy. destruct Hy as [Hy H1].
+    apply negb_true_iff in H1. apply negb_true_iff in H2. rewrite H1, H2.
+    apply O3. rewrite <- O2. exact Hy. }
+  unfold sorted_ok, wf_src. cbn [ssrc]. split; [apply overlay_nodup; exact J1|].
+  assert (KK : forall x, src_mem (overlay o2 (ssrc i)) x =
+     mem x (names_of (flatten (mkSorted e_pos (e_pok ++ pokargs i) (if uva then varargs i else varargs outer)
+        (od_update (od_update [] (kwoargs outer)) (kwoargs i)) (if uvk then varkwargs i else varkwargs outer)
+        (overlay o2 (ssrc i)) (merge_depths (sdep outer) (dep_incr depth (sdep i))))))).
+  { intros y. rewrite overlay_mem, J2, K2. fold (memn y (flatten i)).
+    match goal with |- _ = mem y (names_of ?X) => fold (memn y X) end.
+    rewrite (memn_flatten y i).
+    unfold flatten at 1. cbn [posargs pokargs varargs kwoargs varkwargs].
+    rewrite !memn_app. pose proof (He y) as Hey. rewrite !memn_app in Hey.
+    rewrite (orb_cong3 _ _ _ _ _ Hey). rewrite !memn_od_update, memn_nil.
+    unfold named. rewrite !memn_app.
+    destruct uva, uvk; cbn [negb andb orb];
+      rewrite ?(Nva' eq_refl), ?(Nvk' eq_refl); cbn [opt_list]; rewrite ?memn_nil; btauto. }
+  split; [exact KK|].
+  intros x Hx. rewrite <- KK, overlay_mem in Hx. rewrite (overlay_get _ N2).
+  destruct (src_mem o2 x) eqn:E2; [apply G2; exact E2|].
+  rewrite orb_false_r in Hx. apply J3. rewrite <- J2. exact Hx.
+Qed.
+
+Lemma valid_sig_validate ps : valid_sig ps = true -> validate ps = true.
+Proof.
+  unfold valid_sig. intros H. apply andb_true_iff in H. destruct H as [H _].
+  apply andb_true_iff in H. tauto.
+Qed.
+
+Lemma sort_params_sorted_ok s : valid_sig (params s) = true -> src_ok s -> sorted_ok (sort_params s).
+Proof.
+  intros Hv H. unfold sorted_ok. rewrite sort_params_ssrc, (sort_flatten_roundtrip s Hv). exact H.
+Qed.
+
+Lemma sort_params_nodup s : valid_sig (params s) = true -> NoDup (names_of (flatten (sort_params s))).
+Proof.
+  intros Hv. rewrite (sort_flatten_roundtrip s Hv). apply validate_nodup. apply valid_sig_validate. exact Hv.
+Qed.
+
+(* C08 keys / non-empty for embed of two signatures (the case forwards uses) *)
+Theorem embed2_src_ok o i uva uvk r :
+  embed [o; i] uva uvk = Ok r ->
+  valid_sig (params o) = true -> src_ok o -> src_nonempty i -> src_ok r.
+Proof.
+  cbn [embed embed_steps]. intros E Hv Ho Hi.
+  apply bind_ok in E. destruct E as [acc [E1 E2]].
+  apply bind_ok in E1. destruct E1 as [acc1 [E0 E1]]. apply to_incompatible_ok in E0.
+  inversion E1; subst. clear E1.
+  eapply apply_params_src_ok; [|exact E2].
+  eapply embed_step_sorted_ok; [| | |exact E0].
+  - apply sort_params_sorted_ok; assumption.
+  - apply nodup_names_fwd_apart. apply sort_params_nodup. exact Hv.
+  - apply sort_params_nonempty. exact Hi.
+Qed.
+
+(* ---- the n-ary fold: star names kept apart from everything else ---- *)
+Section Apart.
+Variables NN VA VK : list name.
+Hypothesis NN_VA : forall x, In x NN -> ~ In x VA.
+Hypothesis NN_VK : forall x, In x NN -> ~ In x VK.
+Hypothesis VA_VK : forall x, In x VA -> ~ In x VK.
+
+Definition sorted_in (so : sorted) : Prop :=
+  (forall y, memn y (named so) = true -> In y NN) /\
+  (forall p, varargs so = Some p -> In (pname p) VA) /\
+  (forall p, varkwargs so = Some p -> In (pname p) VK).
+
+Lemma sorted_in_fwd_apart uva uvk so : sorted_in so -> fwd_apart uva uvk so.
+Proof.
+  intros (H1 & H2 & H3). split.
+  - intros _ p Hp. split.
+    + destruct (memn (pname p) (named so)) eqn:E; [|reflexivity].
+      exfalso. apply (NN_VA _ (H1 _ E)). apply H2. exact Hp.
+    + intros _. rewrite memn_opt. destruct (varkwargs so) as [q|] eqn:Eq; [|reflexivity].
+      destruct (N.eqb_spec (pname p) (pname q)) as [E|E]; [|reflexivity].
+      exfalso. apply (VA_VK (pname p)); [apply H2; exact Hp | rewrite E; apply H3; reflexivity].
+  - intros _ p Hp. split.
+    + destruct (memn (pname p) (named so)) eqn:E; [|reflexivity].
+      exfalso. apply (NN_VK _ (H1 _ E)). apply H3. exact Hp.
+    + intros _. rewrite memn_opt. destruct (varargs so) as [q|] eqn:Eq; [|reflexivity].
+      destruct (N.eqb_spec (pname p) (pname q)) as [E|E]; [|reflexivity].
+      exfalso. apply (VA_VK (pname q)); [apply H2; reflexivity | rewrite <- E; apply H3; exact Hp].
+Qed.
+
+Lemma embed_step_sorted_in outer inner uva uvk depth s :
+  sorted_in outer -> sorted_in inner ->
+  embed_step outer inner uva uvk depth = Ok s -> sorted_in s.
+Proof.
+  intros (O1 & O2 & O3) (J1 & J2 & J3). unfold embed_step. intros E.
+  apply bind_ok in E. destruct E as [i [Ei E]].
+  destruct (merger_Inv _ _ _ Ei) as (_ & _ & _ & _ & Pn & Sva & Svk & _ & _).
+  cbn [varargs varkwargs] in Sva, Svk.
+  assert (Hin : forall y, memn y (named i) = true -> In y NN).
+  { intros y Hy. apply Pn in Hy. rewrite memn_app in Hy. unfold named at 2 in Hy.
+    cbn [posargs pokargs kwoargs app] in Hy. rewrite memn_nil, orb_false_r in Hy. apply J1. exact Hy. }
+  apply bind_ok in E. destruct E as [n1 [_ E]].
+  apply bind_ok in E. destruct E as [n2 [_ E]].
+  apply bind_ok in E. destruct E as [[[e_pos e_pok] n3] [Ee E]].
+  assert (He : forall y, memn y (e_pos ++ e_pok ++ pokargs i) =
+                         memn y (posargs outer) || memn y (pokargs outer)
+                         || memn y (posargs i) || memn y (pokargs i)).
+  { intros y. rewrite !memn_app. destruct (posargs i) as [|ip0 ips] eqn:Epi.
+    - rewrite memn_nil. destruct (pokargs i) as [|ik0 iks] eqn:Epk.
+      + inversion Ee; subst. btauto.
+      + destruct (has_def ik0); inversion Ee; subst; rewrite ?memn_clear; btauto.
+    - apply bind_ok in Ee. destruct Ee as [n3' [_ Ee]]. inversion Ee; subst.
+      destruct (has_def ip0);
+        repeat first [rewrite memn_clear | rewrite memn_app | rewrite memn_map_kind | rewrite memn_nil]; btauto. }
+  apply bind_ok in E. destruct E as [n4 [_ E]].
+  apply bind_ok in E. destruct E as [n5 [_ E]].
+  apply bind_ok in E. destruct E as [n6 [_ E]].
+  inversion E; subst. clear E. unfold sorted_in. cbn [varargs varkwargs]. split; [|split].
+  - intros y. unfold named at 1. cbn [posargs pokargs kwoargs].
+    rewrite app_assoc, memn_app, He, !memn_od_update, memn_nil. intros H.
+    assert (Ho : memn y (named outer) = true \/ memn y (named i) = true).
+    { unfold named. rewrite !memn_app.
+      destruct (memn y (posargs outer)), (memn y (pokargs outer)), (memn y (kwoargs outer)),
+        (memn y (posargs i)), (memn y (pokargs i)), (memn y (kwoargs i)); cbn in *; auto. }
+    destruct Ho as [Ho|Ho]; [apply O1; exact Ho | apply Hin; exact Ho].
+  - intros p. destruct uva; [|apply O2]. intros Hp. rewrite Hp in Sva. cbn in Sva.
+    destruct Sva as [[a [Ha [En _]]]|[b [Hb [En _]]]]; rewrite En.
+    + apply J2. exact Ha.
+    + apply O2. exact Hb.
+  - intros p. destruct uvk; [|apply O3]. intros Hp. rewrite Hp in Svk. cbn in Svk.
+    destruct Svk as [[a [Ha [En _]]]|[b [Hb [En _]]]]; rewrite En.
+    + apply J3. exact Ha.
+    + apply O3. exact Hb.
+Qed.
+
+Lemma embed_steps_sorted_ok ss : forall acc uva uvk depth r,
+  sorted_ok acc -> sorted_in acc ->
+  Forall (fun s => src_nonempty s /\ sorted_in (sort_params s)) ss ->
+  embed_steps acc ss uva uvk depth = Ok r -> sorted_ok r.
+Proof.
+  induction ss as [|s ss IH]; intros acc uva uvk depth r Hacc Hin Hss; cbn [embed_steps].
+  - intros E; inversion E; subst; exact Hacc.
+  - inversion Hss as [|s' ss' [Hs1 Hs2] Hss']; subst. intros E.
+    apply bind_ok in E. destruct E as [acc' [E1 E2]]. apply to_incompatible_ok in E1.
+    eapply IH; [| |exact Hss'|exact E2].
+    + eapply embed_step_sorted_ok; [exact Hacc | apply sorted_in_fwd_apart; exact Hin | | exact E1].
+      apply sort_params_nonempty. exact Hs1.
+    + eapply embed_step_sorted_in; [exact Hin | exact Hs2 | exact E1].
+Qed.
+End Apart.
+
+(* names of the named / star parameters of a list of inputs *)
+Definition named_names (ss : list sigT) : list name :=
+  flat_map (fun s => names_of (filter is_named (params s))) ss.
+Definition va_names (ss : list sigT) : list name :=
+  flat_map (fun s => names_of (filter (is_kind VP) (params s))) ss.
+Definition vk_names (ss : list sigT) : list name :=
+  flat_map (fun s => names_of (filter (is_kind VK) (params s))) ss.
+
+(* no star parameter of any input is named like a named parameter of any
+   input, and no star-args like a star-kwargs *)
+Definition stars_apart (ss : list sigT) : bool :=
+  disjointb (named_names ss) (va_names ss) && disjointb (named_names ss) (vk_names ss)
+  && disjointb (va_names ss) (vk_names ss).
+
+Lemma disjointb_spec a b : disjointb a b = true -> forall x, In x a -> ~ In x b.
+Proof.
+  unfold disjointb. intros H x Hx Hb. rewrite forallb_forall in H. specialize (H x Hx).
+  apply negb_true_iff in H. apply mem_false_In in H. exact (H Hb).
+Qed.
+
+Lemma sort_params_sorted_in ss s : In s ss ->
+  sorted_in (named_names ss) (va_names ss) (vk_names ss) (sort_params s).
+Proof.
+  intros Hs. destruct (sort_params_kinds s) as (K1 & K2 & K3 & K4 & K5).
+  rewrite Forall_forall in K1, K2, K4.
+  assert (G : forall (f : param -> bool) p, In p (flatten (sort_params s)) -> f p = true ->
+                In (pname p) (flat_map (fun s => names_of (filter f (params s))) ss)).
+  { intros f p Hp Hf. apply in_flat_map. exists s. split; [exact Hs|].
+    unfold names_of. apply in_map. apply filter_In. split; [apply sort_params_In; exact Hp | exact Hf]. }
+  split; [|split].
+  - intros y Hy. apply memn_In in Hy. destruct Hy as [p [Hp <-]].
+    apply (G is_named); [apply named_flatten; exact Hp|].
+    unfold named in Hp. apply in_app_or in Hp. unfold is_named.
+    destruct Hp as [Hp|Hp]; [rewrite (K1 _ Hp); reflexivity|].
+    apply in_app_or in Hp. destruct Hp as [Hp|Hp]; [rewrite (K2 _ Hp) | rewrite (K4 _ Hp)]; reflexivity.
+  - intros p Hp. apply (G (is_kind VP)); [apply opt_in_flatten_va; exact Hp|].
+    unfold is_kind. rewrite (K3 _ Hp). reflexivity.
+  - intros p Hp. apply (G (is_kind VK)); [apply opt_in_flatten_vk; exact Hp|].
+    unfold is_kind. rewrite (K5 _ Hp). reflexivity.
+Qed.
+
+(* C08 keys / non-empty for the n-ary embed *)
+Theorem embed_src_ok s0 ss uva uvk r :
+  embed (s0 :: ss) uva uvk = Ok r ->
+  valid_sig (params s0) = true -> stars_apart (s0 :: ss) = true ->
+  src_ok s0 -> Forall src_nonempty ss -> src_ok r.
+Proof.
+  cbn [embed]. intros E Hv Hap H0 Hss.
+  apply bind_ok in E. destruct E as [acc [E1 E2]].
+  eapply apply_params_src_ok; [|exact E2].
+  unfold stars_apart in Hap. apply andb_true_iff in Hap. destruct Hap as [Hap A3].
+  apply andb_true_iff in Hap. destruct Hap as [A1 A2].
+  eapply (embed_steps_sorted_ok (named_names (s0 :: ss)) (va_names (s0 :: ss)) (vk_names (s0 :: ss))
+            (disjointb_spec _ _ A1) (disjointb_spec _ _ A2) (disjointb_spec _ _ A3)); [| | |exact E1].
+  - apply sort_params_sorted_ok; assumption.
+  - apply sort_params_sorted_in. left. reflexivity.
+  - apply Forall_forall. intros s Hs. split.
+    + rewrite Forall_forall in Hss. apply Hss. exact Hs.
+    + apply sort_params_sorted_in. right. exact Hs.
 Qed.
